@@ -169,14 +169,16 @@ def run_one(ctx, d, spec, mode, target, tag, flags=()):
     before_out = listing(outp) if os.path.exists(outp) else []
     before = tree(cd)
     flags = list(flags)
-    args = ["list", "operations", "-i", spec_path] if mode == "list" else ["generate", mode, "-i", spec_path, "-o", outp, "-q"] + flags
-    rc, so, se, to = ctx.run_cli(args, timeout=10 if ctx.quick else 20, env={"RUST_BACKTRACE": "0"})
+    # target "closed-stdout": an ordinary run (no -q) whose stdout is a pipe nobody reads; generation itself has to succeed
+    closed = target == "closed-stdout"
+    args = ["list", "operations", "-i", spec_path] if mode == "list" else ["generate", mode, "-i", spec_path, "-o", outp] + ([] if closed else ["-q"]) + flags
+    rc, so, se, to = ctx.run_cli(args, timeout=10 if ctx.quick else 20, env={"RUST_BACKTRACE": "0"}, stdout_closed=closed)
     if target == "readonly":
         os.chmod(out + "_ro", 0o755)
     after = tree(cd)
     after_out = listing(outp) if os.path.exists(outp) else []
     written = [f for f, h in after_out if [f, h] not in before_out]
-    tgt = "ok" if target in ("ok", "preexisting") else target
+    tgt = "ok" if target in ("ok", "preexisting", "closed-stdout") else target
     if target == "preexisting":
         tgt = "ok"
     is_root = os.geteuid() == 0
@@ -216,6 +218,9 @@ def run(ctx):
         for tgt in ("preexisting", "nondir", "readonly"):
             for mode in ("types", "client-mod"):
                 batch.append(run_one(ctx, d, bases[-1], mode, tgt, f"w_{tgt}_{mode}"))
+        # stdout gone (finding F12-9, repaired): `list operations | head`, progress lines of `generate` into a closed pipe
+        for mode in ("list", "types", "client-mod", "server-mod"):
+            batch.append(run_one(ctx, d, bases[-1], mode, "closed-stdout", f"w_closed_{mode}"))
         # the path-template grammar, segment by segment: literal / parameter arrangements over ASCII and
         # multi-byte literals, and every malformed brace shape
         lits = ["a", "\u00e9", "\u20acx", "\u65e5\u672c", "a-b", "%20", "\U0001f600", "x.y"]
